@@ -80,8 +80,10 @@ func (e *Expr) String() string {
 		}
 		s = n + "(" + strings.Join(parts, ", ") + ")"
 	}
-	if len(s) > 600 {
-		s = s[:600] + "…"
+	// long enough that two different expressions a rule compares by text do not collapse to the same prefix (reports cut
+	// what they show themselves)
+	if len(s) > 6000 {
+		s = s[:6000] + "…"
 	}
 	e.str = s
 	return s
@@ -2012,7 +2014,7 @@ func Replace(e, old, new *Expr) *Expr {
 	if e == nil {
 		return nil
 	}
-	if e == old || e.String() == old.String() {
+	if e == old || EqualExpr(e, old) {
 		return new
 	}
 	if len(e.Args) == 0 {
@@ -2030,6 +2032,16 @@ func Replace(e, old, new *Expr) *Expr {
 	}
 	if !changed {
 		return e
+	}
+	switch ne.Op {
+	case "field":
+		return fieldOf(ne.Args[0], ne.Name)
+	case "res":
+		var i int
+		fmt.Sscan(ne.Name, &i)
+		return resOf(ne.Args[0], i)
+	case "phi":
+		return mkPhi(ne.Args)
 	}
 	return &ne
 }
@@ -2217,4 +2229,28 @@ func (w *World) initOnlyField(g *ssa.Global, path []int) *Expr {
 	}
 	w.initFields[k] = e
 	return e
+}
+
+// InitOnlyValue: the value the package initialiser assigns to global g (nil unless that is its only assignment).
+func (w *World) InitOnlyValue(g *ssa.Global) *Expr { return w.initOnlyField(g, nil) }
+
+// EqualExpr: structural equality (String() is truncated for long expressions and must not be used to identify them).
+func EqualExpr(a, b *Expr) bool {
+	if a == b {
+		return true
+	}
+	if a == nil || b == nil || a.Op != b.Op || a.Name != b.Name || len(a.Args) != len(b.Args) || len(a.Fields) != len(b.Fields) {
+		return false
+	}
+	for i := range a.Fields {
+		if a.Fields[i] != b.Fields[i] {
+			return false
+		}
+	}
+	for i := range a.Args {
+		if !EqualExpr(a.Args[i], b.Args[i]) {
+			return false
+		}
+	}
+	return true
 }
